@@ -1,4 +1,4 @@
-\* the mechanism AS SHIPPED: a NULL cell in an Inventory column raises.  TLC must violate Total.
+\* the mechanism as shipped BEFORE fix e9990d2: a NULL cell in an Inventory column raises.  TLC must violate Total.
 CONSTANTS
   Space = "invnull"
   Shapes <- ShapesOf
